@@ -168,6 +168,11 @@ def seed_of():
 def run_seq_case(sh, cI, indexing, U, order, gv, tol, threads, case):
     ubis = [U[g] for g in order]
     ng = len(gv)
+    if ng >= 7:
+        # a peak without a finite g-vector (a detector position that could not be converted) is indexed by no grain
+        gv = gv.copy()
+        gv[3] = np.nan
+        gv[ng - 2, 1] = np.inf
     ref = None
     for nt in threads:
         cI.cimaged11_omp_set_num_threads(nt)
@@ -316,7 +321,8 @@ def _assignlabels_flavour(sh, gi, tier, flavour):
     truth = c09.true_grains(3, seed_of())
     if flavour == "origin-mixed":
         # freshly indexed grains sit at the origin until their position is refined: grains 0 and 2 at (0,0,0), the others displaced
-        truth = [(truth[0][0], np.zeros(3)), truth[1], (truth[2][0], np.zeros(3))]
+        # ... and one ON the rotation axis but above the beam centre (0, 0, t_z)
+        truth = [(truth[0][0], np.zeros(3)), truth[1], (truth[2][0], np.array([0.0, 0.0, 137.0]))]
     # a competitor: grain 0 rotated by 0.2 degrees, sitting somewhere else
     u0, t0 = truth[0]
     comp = (np.dot(u0, O.rotation_from_axis_angle((1, 2, 3), 0.2).T), t0 + np.array([200.0, -150.0, 80.0]))
